@@ -36,9 +36,10 @@ oracle (real code only):
   q_eq_oo       every program (also ungrammatical nesting / several registers): Q-syntax and CircuitBuilder agree
   count_variants  `build` gives == circuits for the subcircuit count written "" / None / 1
   namer_fresh   the real Namer on random name lists: result distinct from all user names, pairwise distinct
-  nonintegral_let_size_alike   programs whose register size is a let with a non-integral value are taken out of
-                three_equal / q_eq_oo and judged here (KNOWN to fail: text and CircuitBuilder accept `let n 0.5;
-                register q[n]`, Q-syntax rejects it in validate_int)
+  subcircuit_none  replaying an absent count as `Q.subcircuit(None)` gives the same S-expression and circuit as `Q.subcircuit()`
+(Programs whose register size is a let with a non-integral value — `let n 0.5; register q[n]` — are part of three_equal /
+q_eq_oo: Q-syntax refuses them in validate_int, the other two in Register.__init__ since the repair of 2026-09-23;
+the feature `nonintegral_let_size` counts them.)
 """
 import argparse
 import copy
@@ -377,7 +378,7 @@ def exc_class(E, e):
     return type(e).__name__
 
 
-def run_q(E, p, gates):
+def run_q(E, p, gates, absent_as_none=False):
     """Returns (sexpr handed to build | None, circuit | None, error class | None, exact class name)."""
     qs = E["qs"]
     captured = []
@@ -411,6 +412,9 @@ def run_q(E, p, gates):
                     body(Q, s["par"], lets, regs)
             elif "loop" in s:
                 with Q.loop(cnt(s["loop"])):
+                    body(Q, s["body"], lets, regs)
+            elif s["sub"] is None and absent_as_none:
+                with Q.subcircuit(None):
                     body(Q, s["body"], lets, regs)
             elif s["sub"] is None:
                 with Q.subcircuit():
@@ -585,7 +589,8 @@ def body_len(sx):
 
 
 def nonintegral_let_size(p):
-    """Some register's size is a let whose value is not integral (`register q[n]` with `let n 0.5`)."""
+    """Some register's size is a let whose value is not integral (`register q[n]` with `let n 0.5`): Q-syntax
+    refuses it in validate_int, text and CircuitBuilder in Register.__init__ (repaired 2026-09-23; before, they accepted)."""
     for r in p["regs"]:
         if "ref" in r["size"]:
             v = pynum(p["lets"][r["size"]["ref"]]["value"])
@@ -597,19 +602,21 @@ def nonintegral_let_size(p):
 def oracles_for(E, case, ev):
     """Returns {oracle: None (not applicable) | "" (ok) | detail}."""
     p = ev["p"]
-    res = {}
     q_sx, q_c, q_err, q_cls = ev["q"]
     common = legal_py(p) and len(p["regs"]) <= 1
     res = _oracles_for(E, case, ev, p, q_sx, q_c, q_err, q_cls, common)
-    if nonintegral_let_size(p):
-        # KNOWN DIVERGENCE (reported): Register() validates only literal sizes, Q-syntax validate_int also let sizes.
-        # Kept visible under its own name so that the main oracles stay meaningful.
-        d = [f"{k}: {res[k]}" for k in ("three_equal", "q_eq_oo") if res.get(k)]
-        res["nonintegral_let_size_alike"] = "; ".join(d)
-        res["three_equal"] = None
-        res["q_eq_oo"] = None
+    # Q.subcircuit(None) == Q.subcircuit()  (QBlock.build repaired 2026-09-23)
+    if '"sub": null' in json.dumps(p["body"]):
+        gates = E["GATES"] if case["gates"] == "typed" else None
+        n_sx, n_c, n_err, n_cls = run_q(E, p, gates, absent_as_none=True)
+        if n_sx != q_sx or n_err != q_err:
+            res["subcircuit_none"] = f"Q.subcircuit(None): {n_cls or 'ok'} {n_sx!r} vs Q.subcircuit(): {q_cls or 'ok'} {q_sx!r}"
+        elif n_c is not None and q_c is not None:
+            res["subcircuit_none"] = "; ".join(circuits_equal(E, n_c, q_c))
+        else:
+            res["subcircuit_none"] = ""
     else:
-        res["nonintegral_let_size_alike"] = None
+        res["subcircuit_none"] = None
     return res
 
 
@@ -755,6 +762,8 @@ def features(case, ev):
     f.append("Q:" + (ev["q"][3] or "ok"))
     f.append("OO:" + (ev["oo_w"][3] or "ok"))
     f.append("text:" + (ev["tx_w"][3] or "ok"))
+    if nonintegral_let_size(p):
+        f.append("nonintegral_let_size")
     if any(l["name"] is None for l in p["lets"]):
         f.append("anon_let")
     if any(r["name"] is None for r in p["regs"]):
@@ -807,7 +816,7 @@ def fixed_cases():
         P(body=[{"seq": [{"par": [{"seq": [{"sub": None, "body": []}]}]}]}]),
         P(body=[g("X"), {"sub": None, "body": [g("prepare_all"), g("measure_all")]}]),
         P(body=[g("measure_all")]),
-        # known divergence: non-integral let as register size
+        # non-integral let as register size: all three reject (was a divergence before the repair of Register.__init__)
         P(lets=[("n", jnum(0.5))], regs=[("q", {"ref": 0})]),
         P(lets=[(None, jnum(2.5))], regs=[(None, {"ref": 0})], body=[g("prepare_all"), g("measure_all")]),
         # integral float / negative let as size: accepted alike
@@ -837,7 +846,7 @@ def run(seed: int, n: int, driver: str = DEFAULT_DRIVER, thorough: bool = False)
     cases, rng = gen_cases(seed, n)
     corr = {k: {"cases": 0, "disagreements": []} for k in ("lower_q", "lower_oo", "parse_sx", "render", "legal", "wraps", "namer")}
     oracle = {k: {"cases": 0, "failures": []} for k in ("three_equal", "wrap_iff", "fresh_names", "q_eq_oo", "count_variants", "namer_fresh",
-                                                        "nonintegral_let_size_alike")}
+                                                        "subcircuit_none")}
     dist = Counter()
     evs = [eval_case(E, c) for c in cases]
     reqs = []
